@@ -381,6 +381,8 @@ type c13WinRes struct {
 	CliCloses  int
 	OpensAfter int // stream requests after Start() returned (or after the deadline)
 	Alive      bool
+	PingsAfter   int  // health-retry-wait: pings after Close() was called
+	OpenOnServer bool // inside-vbucket-reopen: the stream of vBucket 0 is open on the server after Start() returned
 }
 
 func init() {
@@ -422,7 +424,34 @@ func init() {
 			fmt.Println("RESULT " + string(b))
 			return
 		}
+		pingsAtClose := 0
 		switch a.Kind {
+		case "health-retry-wait":
+			// the server stops answering pings: a health-check round has failed once and sits in its one-second retry wait
+			p0, _, _, _ := d.Client.Counts()
+			d.Client.SetPingErr(errors.New("scripted ping failure"))
+			for t0 := time.Now(); time.Since(t0) < 3*time.Second; time.Sleep(2 * time.Millisecond) {
+				if p, _, _, _ := d.Client.Counts(); p > p0 {
+					break
+				}
+			}
+			time.Sleep(100 * time.Millisecond)
+			pingsAtClose, _, _, _ = d.Client.Counts()
+		case "inside-vbucket-reopen":
+			// the stream of vBucket 0 ends with a recoverable error; the request of its reopen is still unanswered when Close() arrives
+			var once sync.Once
+			arrived := make(chan struct{})
+			d.Client.OnOpen = func(vb uint16) {
+				if vb == 0 {
+					once.Do(func() { close(arrived) })
+					<-release
+				}
+			}
+			d.Client.Observer(0).End(models.DcpStreamEnd{VbID: 0}, gocbcore.ErrDCPStreamStateChanged)
+			select {
+			case <-arrived:
+			case <-time.After(3 * time.Second):
+			}
 		case "inside-close":
 			d.Hand.SetHold("BeforeStreamStop", true)
 			go d.Stream.Rebalance()
@@ -466,6 +495,15 @@ func init() {
 			res.Result = "hung"
 		}
 		res.Ms = time.Since(start).Milliseconds()
+		if a.Kind == "health-retry-wait" {
+			time.Sleep(1300 * time.Millisecond) // a round that went on would have pinged again by now
+			p, _, _, _ := d.Client.Counts()
+			res.PingsAfter = p - pingsAtClose
+		}
+		if a.Kind == "inside-vbucket-reopen" {
+			time.Sleep(200 * time.Millisecond)
+			res.OpenOnServer = d.Client.OpenOnServer(0)
+		}
 		_, _, _, opens0 := d.Client.Counts() // what the reopen half that was running has requested is closed again by the teardown
 		if a.Kind == "during-reopen-retries" {
 			time.Sleep(5500 * time.Millisecond) // the retries give up (and panic) four seconds after the first attempt
@@ -486,10 +524,10 @@ func runC13Windows(c *Ctx) {
 		auto bool
 	}
 	var jobs []job
-	for _, kind := range []string{"inside-close", "during-delay-timer-armed", "inside-reopen", "during-reopen-retries"} {
+	for _, kind := range []string{"inside-close", "during-delay-timer-armed", "inside-reopen", "during-reopen-retries", "health-retry-wait", "inside-vbucket-reopen"} {
 		for _, auto := range []bool{true, false} {
-			if kind == "during-reopen-retries" && !auto {
-				continue // six seconds each: once
+			if (kind == "during-reopen-retries" || kind == "health-retry-wait" || kind == "inside-vbucket-reopen") && !auto {
+				continue // once each
 			}
 			jobs = append(jobs, job{kind, auto})
 		}
@@ -505,6 +543,14 @@ func runC13Windows(c *Ctx) {
 		if kind == "during-reopen-retries" {
 			what = "Close() while the library is retrying the reopen of a vBucket stream"
 			class = "close-during-reopen-retries"
+		}
+		if kind == "health-retry-wait" {
+			what = "Close() while a health-check round is in its retry wait after a failed ping (the server does not answer pings)"
+			class = "close-during-health-retry"
+		}
+		if kind == "inside-vbucket-reopen" {
+			what = "Close() while the stream request of the reopen of one vBucket stream is unanswered"
+			class = "close-inside-vbucket-reopen"
 		}
 		rep := map[string]interface{}{"close_arrives": kind, "auto_checkpoint": j.auto, "how": "vh child c13win"}
 		c.Count("window:" + kind)
@@ -526,6 +572,12 @@ func runC13Windows(c *Ctx) {
 			c.Violate(class, fmt.Sprintf("%s: the goroutine of Start() panicked in the teardown: %s", what, res.Result), rep)
 		case res.Result == "hung":
 			c.Violate(class, fmt.Sprintf("%s: Start() had not returned after 3 s", what), rep)
+		case kind == "health-retry-wait" && res.PingsAfter > 1:
+			c.Violate(class, fmt.Sprintf("%s: %d more pings were issued after Close() (the round was not abandoned)", what, res.PingsAfter), rep)
+		case kind == "inside-vbucket-reopen" && res.OpenOnServer:
+			c.Violate(class, what+": after Start() returned the stream of that vBucket is open on the server", rep)
+		case kind == "inside-vbucket-reopen":
+			// the stream requests of that reopen are the library's business; what counts is that nothing is left open
 		case res.OpensAfter > 0:
 			c.Violate(class, fmt.Sprintf("%s: %d stream requests after the call", what, res.OpensAfter), rep)
 		case res.DcpCloses != 1 || res.CliCloses != 1:
